@@ -35,7 +35,7 @@ TRUSTED_BASE = [
     "Flocq 4.1.0 as installed; its theorems depend on the standard library's real-number axioms (ClassicalDedekindReals.sig_forall_dec, sig_not_dec, FunctionalExtensionality.functional_extensionality_dep, Classical_Prop.classic where listed)",
     "hand-written bit-exact models coq/Model/FloatProps.v (props/linear.rs:460-810, leq.rs, eq.rs over float views) and coq/Model/FloatSearch.v (search/{mod,branch,mode}.rs on float/mixed stores) over Model/{B64,FloatInterval,CtxFloat}.v: modelled, not verified; tied by this run's bit-for-bit differentials (families fprop_exact, fsearch_exact)",
     "the Model-level float path (runtime_api lowering of float constraints, Model::minimize/maximize dispatch, root LP step, optimisation fast path) is NOT modelled in Coq: families fsolve_random, flower_cover and farith_random are oracle-only",
-    "arithmetic / element / non-linear fluent routes (family farith_random): m.add/sub/mul/div/abs/min/max/sum, array_float_minimum/maximum/element, ModelExt::elem and fluent x.mul(y) / x.div(y) trees are judged by z = f(operands) in exact rationals within tol_f = spread_f + w(s) + P(s) + 2^-40*magnitude (W = 3/2 step, P(s) = max(3 step, 1e-5(|s|+W)); spreads per operation and the error propagation through hidden auxiliary variables: docstring of vlib/fmodel.py); of these propagators only Add / Sub have a Coq model (Model/FloatProps.v prune_fadd, tied bit for bit by fprop_exact kinds add / sub); Mul, Div, Abs, Min, Max, Sum, Element on floats are NOT modelled",
+    "arithmetic / element / non-linear fluent routes (family farith_random): m.add/sub/mul/div/abs/min/max/sum, array_float_minimum/maximum/element, ModelExt::elem and fluent x.mul(y) / x.div(y) trees are judged by z = f(operands) in exact rationals within tol_f = spread_f + w(s) + P(s) + 2^-40*magnitude (W = 3/2 step, P(s) = max(3 step, 1e-5(|s|+W)); spreads per operation and the error propagation through hidden auxiliary variables: docstring of vlib/fmodel.py); of these propagators Add / Sub / Mul have a Coq model (Model/FloatProps.v prune_fadd, prune_fmul, tied bit for bit by fprop_exact kinds add / sub / mul; for Mul the proved part is integers-only-shrink and the divisor guard, Proofs/FloatMulProofs.v); Div, Abs, Min, Max, Sum, Element on floats are NOT modelled",
     "this run's exact-rational judge vlib/fmodel.py (fractions.Fraction on f64 bit patterns) with the tolerance derived in its docstring: tol(row) = sum_{float j}|c_j|*(5*step + 1e-5*B_j) + 2^-40*(|K| + sum|c_j|*B_j)",
     "extraction ExtrOcamlBasic + ExtrOcamlNatInt, no Extract Constant of our own; ocaml/fsolve_cmd.ml glue; Rust harness harness/src/fsolve.rs (hooks H2, H5)",
 ]
@@ -647,14 +647,30 @@ def gen_propf_arith(rng):
     the sum / difference of the operand boxes, shifted and resized by a few steps so that every branch of the six setter
     calls (no change, quantise, clamp, precision tolerance, fail) is visited; 1-2 further propagators on the same variables"""
     doms, info = rand_pdoms(rng, rng.choice([2, 2, 3]), small=rng.random() < 0.5)
-    kind = rng.choice(["add", "sub"])
+    kind = rng.choice(["add", "sub", "mul", "mul"])
     a, b = rng.randrange(len(info)), rng.randrange(len(info))
     def box(t): return (float(t[1]), float(t[2]))
     (alo, ahi), (blo, bhi) = box(info[a]), box(info[b])
     if kind == "sub": blo, bhi = -bhi, -blo
     st = next((t[3] for t in info if t[0] == "F"), 0.5)
     both_int = info[a][0] == "I" and info[b][0] == "I"
-    lo, hi = alo + blo, ahi + bhi
+    if kind == "mul":
+        # Mul (props/mul.rs): the divisor guard range_contains_unsafe_divisor is exercised by operand boxes that end at 0,
+        # at +-f64::EPSILON and just beyond, cross zero, or stay strictly on one side
+        for i in (a, b):
+            if info[i][0] == "F" and rng.random() < 0.45:
+                t = info[i]; w = max(t[2] - t[1], t[3])
+                edge = rng.choice([0.0, -0.0, 2.220446049250313e-16, -2.220446049250313e-16, 2.3e-16, -2.3e-16, 2.2e-13, -2.2e-13, 2.3e-13, -2.3e-13, t[3], -t[3]])
+                nl, nh = (edge, edge + w) if rng.random() < 0.5 else (edge - w, edge)
+                info[i] = ("F", nl, nh, t[3]); doms[i] = "F %s %s %s" % (fm.f2h(nl), fm.f2h(nh), fm.f2h(t[3]))
+        (alo, ahi), (blo, bhi) = box(info[a]), box(info[b])
+        cs = [alo * blo, alo * bhi, ahi * blo, ahi * bhi]
+        cs = [q for q in cs if not (math.isnan(q) or math.isinf(q))] or [0.0]
+        lo, hi = min(cs), max(cs)
+        if rng.random() < 0.5:   # a result box strictly inside the product box makes the back-propagation blocks prune
+            m0 = lo + rng.random() * (hi - lo); lo, hi = m0, m0 + rng.random() * (hi - m0)
+    else:
+        lo, hi = alo + blo, ahi + bhi
     if math.isinf(lo) or math.isnan(lo): lo = -50.0
     if math.isinf(hi) or math.isnan(hi): hi = 50.0
     r = rng.random()
@@ -682,7 +698,7 @@ def gen_propf_arith(rng):
         return "next(x%d)" % i
     ps = ["%s %s %s x%d" % (kind, opd(a), opd(b), s)]
     for _ in range(rng.choice([0, 0, 1, 1, 2])):
-        ps.append(rand_pspec(rng, info, allow_reif=False) if rng.random() < 0.6 else "%s x%d x%d x%d" % (rng.choice(["add", "sub"]), rng.randrange(len(info)), rng.randrange(len(info)), rng.randrange(len(info))))
+        ps.append(rand_pspec(rng, info, allow_reif=False) if rng.random() < 0.6 else "%s x%d x%d x%d" % (rng.choice(["add", "sub", "mul"]), rng.randrange(len(info)), rng.randrange(len(info)), rng.randrange(len(info))))
     rng.shuffle(ps)
     return " ; ".join(["|".join(doms)] + ps)
 
